@@ -51,7 +51,8 @@ func CreateCompiler(funcName string, parent Compiler, checker types.Checker, loc
 		return cmp
 	case *BytecodeCompiler:
 		cmp := NewBytecodeCompiler(funcName, topLevelBytecodeCompilerMode, loc, checker, parent.globalData)
-		cmp.setAdditionalAbortChecks(additionalAbortChecks)
+		// the global data is shared with compilers running in other goroutines: set the flag of this compiler only
+		cmp.additionalAbortChecks = additionalAbortChecks
 		cmp.Errors = errors
 		cmp.SetParent(parent)
 		return cmp
